@@ -23,6 +23,7 @@ import re
 from core import *
 from dataflow import *
 from cfgq import *
+from absint import Walker, UNKNOWN, show, pkey
 from parsers import *
 
 LEVEL = 'other'
@@ -110,27 +111,85 @@ def html_tags(ctx, cfg, fs):
     if not ssw or not esw:
         raise Broken('render_html: start/end arms not found')
     ssw = ssw[0]; esw = esw[0]
-    for v in fs.variants('buffer::Block'):
-        so = [tg for (c, s) in arm_consts(b, ssw, v, pushes) for tg in tags_of(s)]
-        eo = [tg for (c, s) in arm_consts(b, esw, v, pushes) for tg in tags_of(s)]
-        opened = sorted(n for (sl, n) in so if not sl and n != 'br'); closed = sorted(n for (sl, n) in eo if sl)
-        stray = [n for (sl, n) in so if sl] + [n for (sl, n) in eo if not sl and n != 'br']
-        ok = opened == closed and not stray
-        ctx.ob('G.html-tags', 'render_html:Block::%s' % v, ok, 'Block::%s opens %s and closes %s%s' % (v, opened, closed, '' if not stray else ' (stray: %s)' % stray), where=b.where(ssw.b), cfg=cfg, nontrivial=bool(opened))
-    # dd/li choice: both sides test stack.last() against Some(DefinitionList)
-    tests = []
-    for c in b.calls():
-        if c.is_(r'Option<buffer::Block> as std::cmp::PartialEq>::eq$', r'Option<T> as std::cmp::PartialEq>::eq$') and 'buffer::Block' in c.full:
-            a = [provenance(b, x, c.bb, 'term', through=[r'Option::<.*>::copied$', r'as std::ops::Deref>::deref$']) for x in c.args]
-            flat = [q for rs in a for q in rs]
-            last = any(q.kind == 'call' and q.call.is_(r'slice::<impl \[T\]>::last$') for q in flat)
-            consts = tuple(sorted(repr(q.extra.get('bytes', q.what)) for q in flat if q.kind == 'const'))
-            if last and consts:
-                tests.append((c.bb, consts))
-    same_const = len({cst for (_, cst) in tests}) == 1
-    tests = [t for (t, _) in tests] if same_const else []
-    in_start = [t for t in tests if t in arm_blocks(b, ssw, 'ItemBody')]; in_end = [t for t in tests if t in arm_blocks(b, esw, 'ItemBody')]
-    ctx.ob('G.html-tags', 'render_html:itembody-same-test', len(in_start) == 1 and len(in_end) == 1, 'the dd/li choice compares stack.last() with the same constant when opening (%d) and when closing (%d)' % (len(in_start), len(in_end)), where=b.where(), cfg=cfg)
+    # The BlockStart / BlockEnd arms as a table: for every Block variant x what is on top of the stack (a definition
+    # list, something else, nothing) the abstract walker yields the constant strings appended to the output.
+    disc = {v['name']: v['discr'] for v in fs.adt('buffer::Block')['variants']}
+    names = {d: n for n, d in disc.items()}
+    tok_next = [c for c in b.calls() if c.is_(r'Iterator>?::next$') and 'buffer::Token' in c.full]
+    if len(tok_next) != 1:
+        raise Broken('render_html: token loop not found')
+    def is_stack(op, bb):
+        rs = provenance(b, op, bb, 'term', through=DEFAULT_THROUGH + [r'Vec::<.*>::as_slice$'])
+        return bool(rs) and all(r.kind == 'call' and r.call.is_(r'Vec::<buffer::Block>::new$') for r in rs)
+    def mk_model(top):
+        def cm(w, c, store):
+            if c.is_(r'slice::<impl \[.*\]>::last$') and is_stack(c.args[0], c.bb):
+                if top is None:
+                    return ('agg', 'std::option::Option', 'None', [])
+                return ('agg', 'std::option::Option', 'Some', [('agg', 'buffer::Block', top, [])])
+            if c.is_(r'Option<.*> as std::cmp::PartialEq>::eq$') and 'buffer::Block' in c.full:
+                vals = []
+                for a_ in c.args:
+                    v = w.opval(a_, store)
+                    if v is not UNKNOWN and v[0] == 'agg':
+                        vals.append(v[3][0][2] if v[2] == 'Some' and v[3] and v[3][0] is not UNKNOWN else v[2])
+                    else:
+                        for r in provenance(b, a_, c.bb, 'term', through=None):
+                            if r.kind == 'const' and isinstance(r.extra, dict) and r.extra.get('bytes') and len(r.extra['bytes']) == 1:
+                                vals.append(names.get(r.extra['bytes'][0], 'None'))
+                if len(vals) == 2:
+                    return ('c', vals[0] == vals[1])
+            return None
+        cm.first = True
+        return cm
+    push_bbs = {c.bb for c in pushes}
+    def arm_table(sw_, entry):
+        tab = {}; disc_ok = True
+        for V in disc:
+            for top in ('DefinitionList', 'Block', None):
+                w = Walker(b, call_model=mk_model(top), variant_of={pkey(sw_.place): V}, max_paths=300, max_visits=2)
+                w.stop = {tok_next[0].bb}
+                rows = set()
+                for pth in w.run(entry, {}):
+                    if pth.end != 'stop':
+                        rows.add(('<%s>' % pth.end,)); continue
+                    out = []; order = []
+                    for (blk, c), vals in zip(pth.calls, pth.callvals):
+                        if c.bb in push_bbs:
+                            rs = provenance(b, c.args[1], c.bb, 'term')
+                            txt = None
+                            if len(vals) > 1 and vals[1] is not UNKNOWN and vals[1][0] == 'c' and isinstance(vals[1][1], str):
+                                txt = vals[1][1]       # the value on this very path
+                            elif rs and all(r.kind == 'const' and isinstance(r.what, str) for r in rs) and len({r.what for r in rs}) == 1:
+                                txt = rs[0].what
+                            if txt is not None:
+                                out += ['%s%s' % ('/' if sl else '', n) for (sl, n) in tags_of(txt) if n != 'br']
+                            else:
+                                out.append('<dyn>')
+                        if c.is_(r'Vec::<buffer::Block>::(push|pop)$'): order.append(c.name.split('::')[-1])
+                        if c.is_(r'slice::<impl \[.*\]>::last$') and is_stack(c.args[0], c.bb): order.append('last')
+                    rows.add(tuple(out) + ('|' + ','.join(order),))
+                tab[(V, top)] = rows
+        return tab
+    st_tab = arm_table(ssw, start_t); en_tab = arm_table(esw, end_t)
+    for V in disc:
+        ok = True; desc = []
+        for top in ('DefinitionList', 'Block', None):
+            so = st_tab[(V, top)]; eo = en_tab[(V, top)]
+            opened = sorted(sorted(t for t in r[:-1]) for r in so if r[-1].startswith('|')); closed = sorted(sorted(t.lstrip('/') for t in r[:-1]) for r in eo if r[-1].startswith('|'))
+            stray = [t for r in so for t in r[:-1] if t.startswith('/') or t == '<dyn>'] + [t for r in eo for t in r[:-1] if not t.startswith('/')]
+            ok &= opened == closed and not stray and len(opened) <= 1
+            desc.append('%s: opens %s closes %s' % (top or 'empty stack', opened, closed))
+        some = any(len(r) > 1 for top in ('DefinitionList', 'Block', None) for r in st_tab[(V, top)])
+        ctx.ob('G.html-tags', 'render_html:Block::%s' % V, ok, 'Block::%s, by what is on top of the stack -- %s' % (V, '; '.join(desc)), where=b.where(ssw.b), cfg=cfg, nontrivial=some)
+    n_tagged = sum(1 for V in disc if any(len(r) > 1 for top in ('DefinitionList', 'Block', None) for r in st_tab[(V, top)]))
+    if n_tagged < 5:
+        raise Broken('render_html: only %d Block variants open a tag in the table (the walk lost the output pushes)' % n_tagged)
+    # stack discipline that makes "same top of stack at opening and closing" true: BlockStart looks before it pushes
+    # (exactly once), BlockEnd pops (exactly once) before it looks
+    so = {r[-1] for rs in st_tab.values() for r in rs if r[-1].startswith('|')}; eo = {r[-1] for rs in en_tab.values() for r in rs if r[-1].startswith('|')}
+    ok = so <= {'|push', '|last,push'} and eo <= {'|pop', '|pop,last'} and bool(so) and bool(eo)
+    ctx.ob('G.html-tags', 'render_html:itembody-same-test', ok, 'BlockStart reads the top of the stack before its single push (%s); BlockEnd reads it after its single pop (%s): the dd/li choice sees the same enclosing block both times' % (sorted(so), sorted(eo)), where=b.where(), cfg=cfg)
     # change_style
     cs = ctx.look(fs.one(r'^buffer::html::change_style$'))
     ps = [c for c in cs.calls() if c.is_(r'^std::string::String::push_str$')]
@@ -194,90 +253,180 @@ def pairing(ctx, cfg, fs):
         ctx.ob('P.token-pairing', '%s:closed-on-all-paths' % short(b.path), not bad, '%s: every BlockStart is followed by its BlockEnd on every path to the return: %s' % (short(b.path), bad or 'ok'), where=b.where(), cfg=cfg)
 
 def escaper(ctx, cfg, fs):
+    """The byte loop of escape() as a transducer table: for every escaping rule x byte class x line-start flag the
+    abstract walker (constants propagated, the unknown `ap` forked) yields the bytes appended for ONE input byte and
+    the new value of the line-start flag.  The obligations are read off that table, so they do not depend on how
+    the tests are spelled (==, matches!, match) or on the order of the arms."""
     b = ctx.look(fs.one(r'^buffer::manpage::escape::escape$'))
-    esw = [s for s in switches(b) if s.kind == 'enum' and s.enum and s.enum.endswith('escape::Escape')]
+    enum = fs.adt('buffer::manpage::escape::Escape')
+    disc = {v['name']: v['discr'] for v in enum['variants']}
+    esw = [s_ for s_ in switches(b) if s_.kind == 'enum' and s_.enum and s_.enum.endswith('escape::Escape')]
     if not esw:
         raise Broken('escape::escape: no switch on Escape')
-    # the switch inside the byte loop: the one with most distinct targets
-    sw = max(esw, key=lambda s: len(set(s.edges.values())))
-    def arm(v):
-        return arm_blocks(b, sw, v)
-    def byte_tests(blocks):
-        out = {}
-        for x in blocks:
-            t = b.term(x)
-            if t['k'] == 'switch':
-                s_ = Switch(b, x)
-                for r in s_.roots:
-                    if r.kind == 'bin' and r.extra['op'] in ('Eq', 'Ne'):
-                        for o in (r.extra['a'], r.extra['b']):
-                            cst = op_const(o)
-                            if cst and isinstance(cst.get('v'), int):
-                                out[cst['v']] = s_
-                # `match c { b' ' | b'\n' => }` compiles to a switch on the byte itself
-                if s_.kind == 'int':
-                    for v in s_.edges:
-                        if isinstance(v, int): out[v] = s_
+    sw = max(esw, key=lambda s_: len(set(s_.edges.values())))
+    nx = [c for c in b.calls() if c.is_(r'Iterator>?::next$') and re.search(r'slice::Iter<.*u8>', c.full)]
+    outer_nx = [c for c in b.calls() if c.is_(r'Iterator>?::next$') and c not in nx]
+    if len(nx) != 1 or len(outer_nx) != 1:
+        raise Broken('escape::escape: expected one loop over items and one over bytes, found %d/%d next() calls' % (len(outer_nx), len(nx)))
+    def is_byte(op, bb, ix):
+        rs = provenance(b, op, bb, ix, through=None)
+        return bool(rs) and all(r.kind == 'call' and r.call.bb == nx[0].bb for r in rs)
+    byte_locals = set()
+    for l in range(len(b.locals)):
+        if b.local_ty(l) == 'u8':
+            ds = b.whole_defs(l)
+            if ds and all(d[2] == 'assign' and d[3]['rv']['k'] == 'use' and is_byte(d[3]['rv']['op'], d[0], d[1]) for d in ds):
+                byte_locals.add(l)
+    als = set()
+    for i, k, st in b.stmts():
+        if st['k'] == 'assign' and not st['lhs'][1] and st['rv']['k'] == 'bin' and st['rv']['op'] == 'Eq' and b.local_ty(st['lhs'][0]) == 'bool' and st['lhs'][0] in b.local_names:
+            ops = (st['rv']['a'], st['rv']['b'])
+            if any((op_const(o) or {}).get('v') == 10 for o in ops) and any(is_byte(o, i, k) for o in ops if not op_const(o)):
+                als.add(st['lhs'][0])
+    if len(als) != 1 or not byte_locals:
+        raise Broken('escape::escape: line-start flag (a bool recomputed as byte == 10) or the byte variable not identified: %s / %s' % (als, byte_locals))
+    L = list(als)[0]
+    rule_local = sw.place[0] if isinstance(sw.place, list) else None
+    def mk_model(V):
+        def cm(w, c, store):
+            if c.is_(r'escape::Escape as std::cmp::PartialEq>::eq$'):
+                ks = []
+                for a in c.args:
+                    for r in provenance(b, a, c.bb, 'term', through=None):
+                        if r.kind == 'const' and isinstance(r.extra, dict) and r.extra.get('bytes') and len(r.extra['bytes']) == 1:
+                            ks.append(r.extra['bytes'][0])
+                if len(ks) == 1 and V is not None:
+                    return ('c', disc[V] == ks[0])
+            return None
+        cm.first = True
+        return cm
+    def tokens(path):
+        out = []
+        for (blk, c) in path.calls:
+            if c.is_(r'Vec::<u8>::push$'):
+                rs = provenance(b, c.args[1], c.bb, 'term', through=None)
+                if rs and all(r.kind == 'const' for r in rs) and len({r.what for r in rs}) == 1:
+                    out.append(rs[0].what)
+                elif is_byte(c.args[1], c.bb, 'term'):
+                    out.append('raw')
+                else:
+                    out.append('dyn')
+            elif c.is_(r'Vec::<u8>::extend_from_slice$', r'Extend<.*>>::extend'):
+                rs = provenance(b, c.args[1], c.bb, 'term', through=[r'str::<impl str>::as_bytes$', r'String::as_bytes$'])
+                if len(rs) == 1 and rs[0].kind == 'const' and isinstance(rs[0].extra, dict) and rs[0].extra.get('bytes') is not None:
+                    out += list(rs[0].extra['bytes'])
+                elif len(rs) == 1 and rs[0].kind == 'const' and isinstance(rs[0].what, str):
+                    out += list(rs[0].what.encode())
+                else:
+                    out.append('dyn')
+            elif c.is_(r'Vec::<u8>::') and not c.is_(r'Vec::<u8>::(len|is_empty|capacity|as_slice)$'):
+                out.append('dyn')
+        return tuple(out)
+    CLASSES = {32: 'space', 10: 'newline', 46: 'dot', 39: 'apostrophe', 92: 'backslash', 45: 'dash', 65: 'other'}
+    table = {}
+    for V in disc:
+        for v in CLASSES:
+            for flag in (True, False):
+                w = Walker(b, call_model=mk_model(V), max_paths=400, max_visits=2)
+                w.stop = {nx[0].bb}
+                store = {l: ('c', v) for l in byte_locals}; store[L] = ('c', flag)
+                paths = w.run(sw.target(V), store)
+                rows = set()
+                for pth in paths:
+                    after = pth.store.get(L, UNKNOWN) if pth.end == 'stop' else ('end', pth.end)
+                    rows.add((tokens(pth), show(after) if pth.end == 'stop' else 'leaves the loop: %s' % pth.end))
+                table[(V, v, flag)] = rows
+    def rows(V, v, flag=None):
+        out = set()
+        for f in ((True, False) if flag is None else (flag,)):
+            out |= table[(V, v, f)]
         return out
-    sp = arm('Spaces')
-    bt = byte_tests(sp)
-    raw_push = [c for c in b.calls() if c.bb in sp and c.is_(r'Vec::<u8>::push$') and not all(r.kind == 'const' for r in provenance(b, c.args[1], c.bb, 'term'))]
-    ok = 32 in bt and 10 in bt and bool(raw_push)
-    if ok:
-        # the raw push must be unreachable when the byte equals ' ' or '\n'
-        for v in (32, 10):
-            s_ = bt[v]
-            if s_.kind == 'bool':
-                r = [q for q in s_.roots if q.kind == 'bin'][0]
-                eq_edge = s_.target(True) if r.extra['op'] == 'Eq' else s_.target(False)
-            else:
-                eq_edge = s_.edges.get(v)
-            ok &= not any(c.bb in reachable_edges(b, eq_edge, avoid=[x for x in set(sw.edges.values())]) and c.bb in sp and not _passes_other_test(b, eq_edge, c.bb, bt, v) for c in raw_push)
-    ctx.ob('E.roff-escaper', 'escape:Spaces-replaces-space-and-newline', ok, 'the Spaces rule tests the byte against both \' \' (32) and \'\\n\' (10) and never writes those bytes raw (tests found for %s)' % sorted(bt), where=b.where(), cfg=cfg)
-    for v in ('Special', 'SpecialNoNewline'):
-        blocks = arm(v)
-        bt = byte_tests(blocks)
-        ok = 46 in bt and 39 in bt
-        # the guard writes \& (extend_from_slice of b"\\&") before any raw push of the byte
-        guard = [c for c in b.calls() if c.bb in blocks and c.is_(r'extend_from_slice$') and any(r.kind == 'const' and r.extra.get('bytes') == [92, 38] for r in provenance(b, c.args[1], c.bb, 'term'))]
-        raw = [c for c in b.calls() if c.bb in blocks and c.is_(r'Vec::<u8>::push$') and not all(r.kind == 'const' for r in provenance(b, c.args[1], c.bb, 'term'))]
-        ok &= len(guard) == 1 and bool(raw)
-        if ok:
-            g = guard[0]
-            # guard is under at_line_start && (c == '.' || c == '\'')
-            als = False
-            for (a, s_) in b.transitive_control_deps(g.bb):
-                sw2 = Switch(b, a)
-                if sw2.kind == 'bool' and any(b.name_of((op_place(sw2.t['op']) or [0])[0]) == 'at_line_start' or any(b.name_of(q.site and 0) == 'x' for q in []) for _ in [0]):
-                    als = True
-                defs = reaching_defs(b, (op_place(sw2.t['op']) or [0])[0], a, 'term') if op_place(sw2.t['op']) else []
-                for (db, dk, kind, st) in defs:
-                    if kind == 'assign' and st['rv']['k'] == 'use' and op_place(st['rv']['op']) and b.name_of(op_place(st['rv']['op'])[0]) == 'at_line_start':
-                        als = True
-            ok &= als
-            # every raw push of the byte in this arm is reachable from the arm entry only... the guard precedes: no path
-            # from the arm entry to a raw push goes through the "is control char at line start" edge without the guard
-            for s_ in (bt[46], bt[39]):
-                pass
-            ok &= all(b.reaches(g.bb, [c.bb]) for c in raw)
-        ctx.ob('E.roff-escaper', 'escape:%s-line-start-guard' % v, ok, 'the %s rule writes `\\&` under `at_line_start and c in {\'.\', \'\\\'\'}` before the byte itself can be written: %s' % (v, ok), where=b.where(), cfg=cfg)
-    # at_line_start: initial true, reassigned from c == '\n'
-    names = {v: k for k, v in b.local_names.items()}
-    al = names.get('at_line_start')
-    if al is None:
-        raise Broken('escape::escape: at_line_start not found')
-    assigns = [(i, k, st) for i, k, st in b.stmts() if st['k'] == 'assign' and st['lhs'] == [al, []]]
-    init_true = any(st['rv']['k'] == 'use' and (op_const(st['rv']['op']) or {}).get('v') is True and b.dominates(i, sw.b) and not b.reaches(sw.b, [i]) for (i, k, st) in assigns)
-    recompute = any(st['rv']['k'] == 'bin' and st['rv']['op'] == 'Eq' and any((op_const(o) or {}).get('v') == 10 for o in (st['rv']['a'], st['rv']['b'])) for (i, k, st) in assigns)
-    ctx.ob('E.roff-escaper', 'escape:at_line_start-tracking', init_true and recompute, 'at_line_start starts true (%s) and is recomputed as c == \'\\n\' after each byte (%s)' % (init_true, recompute), where=b.where(), cfg=cfg)
-    # Unescaped arms push the byte verbatim and nothing else
-    for v in ('Unescaped', 'UnescapedAtNewline'):
-        blocks = arm(v)
-        calls = [c for c in b.calls() if c.bb in blocks and c.is_(r'Vec::<u8>::(push|extend_from_slice)$')]
-        ctx.ob('E.roff-escaper', 'escape:%s-verbatim' % v, len(calls) == 1 and calls[0].is_(r'push$'), 'the %s rule copies the byte verbatim' % v, where=b.where(), cfg=cfg)
+    def fmt(rs):
+        return sorted('%s -> line-start %s' % (''.join(chr(t) if isinstance(t, int) else '<%s>' % t for t in toks).replace('\n', '\\n'), a) for toks, a in rs)
+    # E1: Unescaped rules copy the byte
+    for V in ('Unescaped', 'UnescapedAtNewline'):
+        ok = all({t for t, a in rows(V, v)} == {('raw',)} for v in CLASSES)
+        ctx.ob('E.roff-escaper', 'escape:%s-verbatim' % V, ok, 'the %s rule appends exactly the byte itself for every byte class: %s' % (V, fmt(rows(V, 65))), where=b.where(), cfg=cfg)
+    # E2: Spaces
+    ok = all({t for t, a in rows('Spaces', v)} == {(92, 32)} for v in (32, 10)) and all({t for t, a in rows('Spaces', v)} == {('raw',)} for v in CLASSES if v not in (32, 10))
+    ctx.ob('E.roff-escaper', 'escape:Spaces-replaces-space-and-newline', ok,
+           "the Spaces rule appends `\\ ` for ' ' and '\\n' (never the byte itself) and the byte for anything else: space %s, newline %s, other %s" % (fmt(rows('Spaces', 32)), fmt(rows('Spaces', 10)), fmt(rows('Spaces', 65))), where=b.where(), cfg=cfg)
+    for V in ('Special', 'SpecialNoNewline'):
+        # E3: control characters at the start of a line are defused first
+        ok = all(all(t[:2] == (92, 38) for t, a in rows(V, v, True)) and bool(rows(V, v, True)) for v in (46, 39))
+        ctx.ob('E.roff-escaper', 'escape:%s-line-start-guard' % V, ok,
+               "the %s rule appends `\\&` before a '.' or '\'' that starts a line: dot %s, apostrophe %s" % (V, fmt(rows(V, 46, True)), fmt(rows(V, 39, True))), where=b.where(), cfg=cfg)
+        # E4: backslash and dash are escaped
+        good = True
+        for v in (92, 45):
+            for t, a in rows(V, v):
+                good &= 'raw' in t and t.index('raw') > 0 and t[t.index('raw') - 1] == 92
+        ctx.ob('E.roff-escaper', 'escape:%s-backslash-dash' % V, good, "the %s rule writes a backslash immediately before a '\\' or '-' byte: backslash %s, dash %s" % (V, fmt(rows(V, 92)), fmt(rows(V, 45))), where=b.where(), cfg=cfg)
+    # E5: SpecialNoNewline turns a newline into a space and the line does not start afresh
+    r5 = rows('SpecialNoNewline', 10)
+    ok = bool(r5) and all('raw' not in t and 10 not in t and a == 'False' for t, a in r5)
+    ctx.ob('E.roff-escaper', 'escape:SpecialNoNewline-strips-newline', ok, 'the SpecialNoNewline rule never appends a newline byte and leaves line-start false: %s' % fmt(r5), where=b.where(), cfg=cfg)
+    # E6/E7: nothing dynamic, no byte dropped, line-start flag recomputed as byte == newline
+    nodyn = True; nodrop = True; track = True; n = 0
+    for (V, v, flag), rs in table.items():
+        for t, a in rs:
+            n += 1
+            nodyn &= 'dyn' not in t
+            nodrop &= len(t) > 0
+            if not (V == 'SpecialNoNewline' and v == 10):
+                track &= a == repr(v == 10)
+    ctx.ob('E.roff-escaper', 'escape:table-closed', nodyn and nodrop, 'every row of the table (%d rule x byte-class x line-start x path combinations) appends only the byte itself or constant bytes, and appends something: %s' % (n, nodyn and nodrop), where=b.where(), cfg=cfg)
+    ctx.ob('E.roff-escaper', 'escape:at_line_start-tracking', track, 'after each byte the line-start flag equals (byte == newline), on every row: %s' % track, where=b.where(), cfg=cfg)
+    # E8: the flag starts true, and an UnescapedAtNewline fragment first moves to a fresh line
+    init = [(i, k, st) for i, k, st in b.stmts() if st['k'] == 'assign' and st['lhs'] == [L, []] and b.dominates(i, outer_nx[0].bb) and not b.reaches(outer_nx[0].bb, [i])]
+    init_true = len(init) == 1 and init[0][2]['rv']['k'] == 'use' and (op_const(init[0][2]['rv']['op']) or {}).get('v') is True
+    osw = switch_on_call(b, outer_nx[0])
+    good = osw is not None and osw.target('Some') is not None
+    pre = {}
+    if good:
+        for V in disc:
+            for flag in (True, False):
+                w = Walker(b, call_model=mk_model(V), max_paths=200, max_visits=2)
+                w.stop = {nx[0].bb}
+                paths = w.run(osw.target('Some'), {L: ('c', flag)})
+                pre[(V, flag)] = {(tokens(p_), show(p_.store.get(L, UNKNOWN)) if p_.end == 'stop' else p_.end) for p_ in paths}
+        for (V, flag), rs in pre.items():
+            want = {((10,), 'True')} if (V == 'UnescapedAtNewline' and not flag) else {((), repr(flag))}
+            good &= rs == want
+    ctx.ob('E.roff-escaper', 'escape:fresh-line-for-requests', init_true and good,
+           'the line-start flag starts true (%s); before a fragment is copied, a newline is appended exactly when the rule is UnescapedAtNewline and the output is not at a line start, and the flag is then true: %s' % (
+               init_true, {('%s,%s' % k): sorted(map(str, v)) for k, v in pre.items() if k[0] == 'UnescapedAtNewline'}), where=b.where(), cfg=cfg)
 
-def _passes_other_test(b, frm, to, bt, v):
-    return False
+def nonliteral_callers(fs, b, pname, seen):
+    """call sites of the Roff method `b` whose argument for parameter `pname` is not roff source written by bpaf"""
+    if (b.path, pname) in seen:
+        return []
+    seen.add((b.path, pname))
+    idx = [i for i in range(1, b.arg_count + 1) if b.name_of(i) == pname]
+    if not idx:
+        return ['%s has no parameter `%s`' % (short(b.path), pname)]
+    idx = idx[0] - 1
+    bad = []; n = 0
+    for cal in sorted(fs.callers().get(b.path, ())):
+        cb = fs.bodies.get(cal)
+        if cb is None: continue
+        for cc in cb.calls():
+            if b.path not in cc.names:
+                continue
+            n += 1
+            ar = provenance(cb, cc.args[idx], cc.bb, 'term')
+            if not ar:
+                bad.append('%s passes an untraceable value for `%s`' % (short(cal), pname))
+            for q in ar:
+                if q.kind == 'const' or (q.kind == 'call' and q.call.is_(r'roff::Font::escape$', r'Section.*as_str$')):
+                    continue
+                if q.kind == 'param' and outer(cb.path).startswith('buffer::manpage::roff::Roff::') and not q.path:
+                    bad += nonliteral_callers(fs, cb, q.what, seen)
+                    continue
+                bad.append('%s passes %s:%s for `%s`' % (short(cal), q.kind, q.what if q.kind != 'call' else short(q.call.name), pname))
+    if n == 0 and not b.path.startswith('buffer::manpage::roff::Roff::'):
+        bad.append('%s: no call sites found' % short(b.path))
+    return bad
 
 def unescaped(ctx, cfg, fs):
     # every FreeMonoid::push_str(Escape::X, text) call in the crate
@@ -310,21 +459,13 @@ def unescaped(ctx, cfg, fs):
             if r.kind == 'const':
                 why.append('constant %r' % (r.what,))
             elif r.kind == 'param' and outer(b.path).startswith('buffer::manpage::roff::Roff::'):
-                # interprocedural: every call site of this Roff method passes a constant for that parameter
-                pname = r.what
-                idx = [i for i in range(1, b.arg_count + 1) if b.name_of(i) == pname][0] - 1
-                for cal in sorted(callers.get(b.path, ())):
-                    cb = fs.bodies.get(cal)
-                    if cb is None: continue
-                    for cc in cb.calls():
-                        if b.path in cc.names:
-                            ar = provenance(cb, cc.args[idx], cc.bb, 'term')
-                            def lit(q):
-                                return q.kind == 'const' or (q.kind == 'call' and q.call.is_(r'roff::Font::escape$', r'Section.*as_str$')) or \
-                                    (q.kind == 'param' and outer(cb.path).startswith('buffer::manpage::roff::Roff::') and False)
-                            if not all(lit(q) for q in ar) or not ar:
-                                ok = False; why.append('%s passes %s for `%s`' % (short(cal), sorted('%s:%s' % (q.kind, q.what if q.kind != 'call' else short(q.call.name)) for q in ar), pname))
-                if ok: why.append('parameter `%s`, constant at every call site' % pname)
+                # interprocedural: every call site of this Roff method passes a constant (or, from another Roff
+                # method, a parameter that is itself constant at all of ITS call sites) for that parameter
+                bad = nonliteral_callers(fs, b, r.what, set())
+                if bad:
+                    ok = False; why += bad
+                else:
+                    why.append('parameter `%s`, constant at every call site' % r.what)
             else:
                 ok = False; why.append('%s:%s' % (r.kind, r.what if r.kind != 'call' else short(r.call.name)))
         ctx.ob('U.unescaped', '%s:%s' % (short(b.path), '+'.join(sorted(esc))), ok, '%s pushes unescaped roff source: %s' % (short(b.path), why), where=c.where(), cfg=cfg)
